@@ -7,7 +7,7 @@ from common import R, Rmat, fl, flmat, max_rel_err
 
 from common import wiring_pre_build as pre_build  # noqa: E402,F401
 
-LEAN_MODULES = ["PyomaVerif.Props.C12", "PyomaVerif.Props.WiringRun"]
+LEAN_MODULES = ["PyomaVerif.Props.C12", "PyomaVerif.Props.C12Dat", "PyomaVerif.Props.WiringRun"]
 THEOREMS = [
     # call-site wiring of the class layer, regenerated from /repo on every run (translate_wiring.py)
     "PV.WiringRun.C12_run_build_hank",
@@ -24,6 +24,9 @@ THEOREMS = [
     "PV.C12.C12_R_add_right",
     "PV.C12.C12_R_smul",
     "PV.C12.C12_dat_gram",
+    "PV.C12.C12_dat_model",
+    "PV.C12.hankDatOfR_entry",
+    "PV.C12.hankYs_rows",
 ]
 RULE = (
     "correspondence: random (channels 1..5, reference subset, br 1..5, length <= 60) records with float or small-integer "
